@@ -56,3 +56,30 @@ Section Value.
     | CRgba r g b a => Some (rgba r g b a)
     end.
 End Value.
+
+(* ---- percentage reference ranges of the colour functions (CSS Color 4,
+   sections 9.3 lab()/lch(), 9.4 oklab()/oklch(), 10.2 color()):
+   what number a <percentage> stands for, as a fraction (n, d) of 100%.
+   Functions: 1 lab, 2 lch, 3 oklab, 4 oklch, 5 color(); components 0, 1, 2
+   (the hue of lch/oklch is an angle and takes no percentage). *)
+Definition spec_pct_ref (fn comp : Z) : option (Z * Z) :=
+  match fn, comp with
+  | 1, 0 => Some (100, 1) | 1, 1 => Some (125, 1) | 1, 2 => Some (125, 1)      (* lab: L 100% = 100, a/b 100% = 125 *)
+  | 2, 0 => Some (100, 1) | 2, 1 => Some (150, 1)                              (* lch: L 100% = 100, C 100% = 150 *)
+  | 3, 0 => Some (1, 1) | 3, 1 => Some (2, 5) | 3, 2 => Some (2, 5)            (* oklab: L 100% = 1, a/b 100% = 0.4 *)
+  | 4, 0 => Some (1, 1) | 4, 1 => Some (2, 5)                                  (* oklch: L 100% = 1, C 100% = 0.4 *)
+  | 5, 0 => Some (1, 1) | 5, 1 => Some (1, 1) | 5, 2 => Some (1, 1)            (* color(): 100% = 1 *)
+  | _, _ => None
+  end.
+
+(* the reference ranges parseColor passes to NumberOrFractionForPercentage
+   (css_decls_color.go, cases "lab", "lch", "oklab", "oklch", "color") *)
+Definition model_pct_ref (fn comp : Z) : option (Z * Z) :=
+  match fn, comp with
+  | 1, 0 => Some (100, 1) | 1, 1 => Some (125, 1) | 1, 2 => Some (125, 1)
+  | 2, 0 => Some (100, 1) | 2, 1 => Some (125, 1)
+  | 3, 0 => Some (1, 1) | 3, 1 => Some (2, 5) | 3, 2 => Some (2, 5)
+  | 4, 0 => Some (1, 1) | 4, 1 => Some (2, 5)
+  | 5, 0 => Some (1, 1) | 5, 1 => Some (1, 1) | 5, 2 => Some (1, 1)
+  | _, _ => None
+  end.
